@@ -66,11 +66,12 @@ func c04Eligible(c *Command, o SearchOptions) bool {
 }
 
 // c04IsTool: "a recognised cross-platform tool" spelled independently of the engine's test —
-// the command's first blank-separated word is the tool's name. (The harness database uses git
-// only; look-alikes such as "git-lfs" or "find-module" are other programs.)
+// the command's first blank-separated word is, exactly, a name of the documented tool table
+// (the table is data; the matching rule is what is spelled independently here: look-alikes
+// such as "git-lfs", "git.exe" or "find-module" are other programs).
 func c04IsTool(cmd string) bool {
 	f := strings.Fields(strings.ToLower(cmd))
-	return len(f) > 0 && (f[0] == "git" || f[0] == "docker" || f[0] == "ssh" || f[0] == "find")
+	return len(f) > 0 && crossPlatformTools[f[0]]
 }
 
 // c04Extra adds two entries to c04DB (set by the C04 harnesses only: other properties share
@@ -228,6 +229,40 @@ func VerifHarness_C04_EditedInPlace() {
 	o.UseNLP = verifBool("nlp")
 	res := db.SearchUniversal("aa", o)
 	c04Check(db, res, o, "entry edited in place")
+	verifReach("checked")
+	if len(res) > 0 {
+		verifReach("nonempty")
+	}
+}
+
+// a database in which the query words are not in (nearly) every command, so that the TF-IDF
+// side of the NLP path has a vocabulary and neighbours of its own: the gate holds there too
+func VerifHarness_C04_NLPNeighbours() {
+	mk := func(cmd, desc string, kws []string, plat []string, pipe bool) Command {
+		c := Command{Command: cmd, Description: desc, Keywords: kws, Platform: plat, Pipeline: pipe}
+		vFill(&c)
+		return c
+	}
+	db := &Database{Commands: []Command{
+		mk("ls -la", "list files in a directory", []string{"list", "files", "directory"}, []string{"linux"}, false),
+		mk("dir /a", "list files in a directory", []string{"list", "files", "directory"}, []string{"windows"}, false),
+		mk("Get-ChildItem -Force", "list files and hidden files in a directory", []string{"list", "files"}, []string{"PowerShell"}, false),
+		mk("ls -la | sort -k5 -n", "list files sorted by size", []string{"list", "files", "sort"}, []string{"linux"}, true),
+		mk("systemctl restart nginx", "restart a service", []string{"service", "restart"}, []string{"linux"}, false),
+		mk("brew services restart nginx", "restart a service", []string{"service", "restart"}, []string{"macos"}, false),
+		mk("ping -c 4 host", "check that a host answers", []string{"network"}, []string{"linux", "macos"}, false),
+	}}
+	db.BuildUniversalIndex()
+	db.buildTFIDFSearcher()
+	q := []string{"list files", "restart service", "list hidden files directory", "sorted files"}[verifIntRange("query", 0, 3)]
+	o := c04Options()
+	o.UseNLP = true
+	o.Limit = []int{3, 10}[verifIntRange("limit", 0, 1)]
+	res := db.SearchUniversal(q, o)
+	c04Check(db, res, o, "NLP path, TF-IDF neighbours")
+	cdb := NewCachedDatabase(db)
+	_ = cdb.SearchWithOptionsAndCache(q, o)
+	c04Check(db, cdb.SearchWithOptionsAndCache(q, o), o, "NLP path, cached answer")
 	verifReach("checked")
 	if len(res) > 0 {
 		verifReach("nonempty")
